@@ -20,6 +20,7 @@ from labtech.types import is_task
 NONE_CODE = 999999   # how the model and the observation strings spell a result that is None
 MISSING = object()
 
+EXT_HOOK = None   # callable(k): an 'external writer' acting while task k runs (another Lab on the same storage)
 EXEC_LOG = None  # path; set by the harness before a case runs (inherited by forked helpers)
 REAL = False     # real-backend runs: tasks sleep a little, record wall-clock spans, dying tasks kill themselves
 
@@ -63,6 +64,8 @@ def _run(self):
             import signal
             os.kill(os.getpid(), signal.SIGKILL)
         time.sleep(0.002 * ((self.k * 7) % 11))
+    if EXT_HOOK is not None:
+        EXT_HOOK(self.k)
     reads = []
     for d in dep_objects(self.deps):
         try:
